@@ -468,7 +468,7 @@ pub fn run_c17(ctx: &Ctx) {
     rep.assume("two campaigns: well-typed generated scripts (both emissions, O0 and O1), and 1-3 type/name/structure-level mutations (retype, rename, literal, delete/duplicate statement or item, prefix operators, swap arguments, insert unusual declarations, token dup/del/swap) of generated scripts and of the single-file std-only programs of the e2e corpus; mutants that no longer parse are C16's and skipped");
     rep.assume("a compilation that does not terminate within 120 s ends the check as inconclusive (exit 2), not as a violation");
     spawn_watchdog("C17");
-    let cases = ctx.cases(700, 40_000);
+    let cases = ctx.cases(300, 40_000);
     let kf = KnownFindings::load();
     let out = run_prop(ctx, 17, cases, tape_strategy, |tape| {
         for no_trap in [false, true] {
@@ -520,7 +520,7 @@ pub fn run_c17(ctx: &Ctx) {
         rep.violation(Violation { signature: sig, summary, replay: json!({"tape": tape, "src_variants": src}) });
     }
     // second half of the quantifier: type-, name- and structure-level mutants of generated and corpus programs
-    crate::c17mut::run_mutants(ctx, &rep, ctx.cases(5000, 300_000));
+    crate::c17mut::run_mutants(ctx, &rep, ctx.cases(2000, 300_000));
     vcore::fastc::drop_thread_fastc();
     rep.finish();
 }
